@@ -84,6 +84,20 @@ func TestReplay(t *testing.T) {
 	classes := abs.KeyClasses(nk, gaps)
 	res := &abs.Result{}
 	now := time.Now()
+	// Table of every enumerated ring: a shuffle-shard subring of one enumerated ring is (as far as
+	// ownership goes) another enumerated ring, the one where the tokens of non-members are unowned.
+	table := map[string][][]int{}
+	subChecked, subSkipped := 0, 0
+	if mode != "partition" {
+		_ = abs.ReadNDJSON(in, func(line []byte) error {
+			var c tcase
+			if err := json.Unmarshal(line, &c); err != nil {
+				return err
+			}
+			table[caseKey(c.Own, c.Zone)] = c.Owned
+			return nil
+		})
+	}
 	err := abs.ReadNDJSON(in, func(line []byte) error {
 		var c tcase
 		if err := json.Unmarshal(line, &c); err != nil {
@@ -225,6 +239,103 @@ func TestReplay(t *testing.T) {
 					nontrivial = true
 				}
 			}
+			// The same relation on shuffle-shard subrings (built by Ring.buildRingForTheShard, which
+			// re-merges the per-zone token lists): ranges <=> ownership in the sub-descriptor <=> lookup.
+			for _, tenant := range []string{"s-0", "s-1", "s-2"} {
+				for _, size := range []int{rf, 2 * rf} {
+					sub, ok := r.ShuffleShard(tenant, size).(*ring.Ring)
+					if !ok || sub == r {
+						continue
+					}
+					member := map[int]bool{}
+					for i := 1; i <= n; i++ {
+						if sub.HasInstance(abs.InstID(i)) {
+							member[i] = true
+						}
+					}
+					if len(member) == n || len(member) == 0 {
+						continue
+					}
+					own2 := make([]int, len(c.Own))
+					hasTok := map[int]bool{} // zones that keep tokens
+					for k, o := range c.Own {
+						own2[k] = o
+						if o > 0 && !member[o] {
+							own2[k] = 0
+						}
+						if own2[k] > 0 {
+							hasTok[c.Zone[own2[k]-1]] = true
+						}
+					}
+					if len(hasTok) != rf {
+						subSkipped++ // a zone lost all its tokens: outside "as many zones as replicas"
+						continue
+					}
+					minZone := 0
+					for z := range hasTok {
+						if minZone == 0 || z < minZone {
+							minZone = z
+						}
+					}
+					zone2 := make([]int, n)
+					for i := 1; i <= n; i++ {
+						zone2[i-1] = c.Zone[i-1]
+						owns := false
+						for _, o := range own2 {
+							if o == i {
+								owns = true
+							}
+						}
+						if !owns {
+							zone2[i-1] = minZone // canonical zone of a token-less owner in the specification's universe
+						}
+					}
+					want2, found := table[caseKey(own2, zone2)]
+					if !found {
+						subSkipped++
+						continue
+					}
+					subChecked++
+					for i := range member {
+						id := abs.InstID(i)
+						tr, err := sub.GetTokenRangesForInstance(id)
+						if err != nil {
+							res.Mismatch(abs.Mismatch{Sig: "subring:error", Case: c, Got: err.Error(), Want: "ranges", Note: fmt.Sprintf("%s tenant=%s size=%d", id, tenant, size)})
+							continue
+						}
+						for k := 0; k < nk; k++ {
+							want := contains(want2[i-1], k)
+							for _, key := range classes[k] {
+								got := tr.IncludesKey(key)
+								rs, gerr := sub.Get(key, ring.WriteNoExtend, nil, nil, nil)
+								look := false
+								if gerr == nil {
+									for _, inst := range rs.Instances {
+										if inst.Id == id {
+											look = true
+										}
+									}
+								}
+								if got != want || look != want {
+									kind := "ranges"
+									if got == want {
+										kind = "lookup"
+									}
+									kc := "mid"
+									if key == 0 {
+										kc = "0"
+									} else if key == ^uint32(0) {
+										kc = "max"
+									}
+									res.Mismatch(abs.Mismatch{Sig: fmt.Sprintf("subring:%s key=%s", kind, kc), Case: c,
+										Got:  map[string]any{"includes": got, "lookup_assigns": look, "ranges": tr, "key": key, "instance": id, "members": member, "tenant": tenant, "size": size},
+										Want: map[string]any{"owns": want, "class": k, "sub_own": own2}})
+								}
+							}
+						}
+					}
+				}
+			}
 			stop()
 		}
 		if nontrivial {
@@ -238,5 +349,11 @@ func TestReplay(t *testing.T) {
 	if err != nil {
 		res.Fatal = err.Error()
 	}
+	res.AddExtra("subrings_checked", subChecked)
+	res.AddExtra("subrings_skipped", subSkipped)
 	res.Write(t)
+}
+
+func caseKey(own, zone []int) string {
+	return fmt.Sprint(own, zone)
 }
